@@ -114,6 +114,9 @@ class JsonReport:
                         res.append((cat, e['algorithm'], sev, t))
         return res
 
+    def severities(self):
+        return {sev for _, _, sev, _ in self.findings()} - {'info'}
+
     def recs(self):
         """list of (level, action, cat, name, notes)"""
         res = []
